@@ -36,7 +36,9 @@ def special_batches(ctx, focus, cases, descr):
         if variant == 'wide':
             nres = rng.randint(259, 300)
             table = {(A_, B_): [CombinatorResult(cat=(dead if i < 256 else cats[i % 3]), op_string=f'w{i}', op_symbol=f'<w{i}>', head_is_left=hl) for i in range(nres)]}
-            utable = {A_: [CombinatorResult(cat=(dead if j < 256 else B_), op_string=f'u{j}', op_symbol=f'<u{j}>', head_is_left=True) for j in range(nres)]}
+            # (a rule name / symbol may be any string, the empty one included)
+            utable = {A_: [CombinatorResult(cat=(dead if j < 256 else B_), op_string=('' if j % 2 == 0 else f'u{j}'), op_symbol=('' if j % 2 == 1 else f'<u{j}>'), head_is_left=True)
+                           for j in range(nres)]}
         else:
             table = {(x, y): [CombinatorResult(cat=C_, op_string=f'r{x}{y}', op_symbol='<r>', head_is_left=hl)] for x in cats for y in cats}
             utable = {}
@@ -56,7 +58,8 @@ def special_batches(ctx, focus, cases, descr):
             sents.append(s)
         nbest = 1 if variant == 'wide' else rng.choice([1, 2])
         try:
-            res, rec = glue.run(sents, cats, cats, binary, unary, unary_penalty=0.125, beta=0.1, use_beta=False, pruning_size=2 if variant == 'wide' else 50,
+            roots_ = [B_, C_] if variant == 'wide' else cats        # wide: the lexical category A is no root, a one-word sentence needs the unary rule
+            res, rec = glue.run(sents, cats, roots_, binary, unary, unary_penalty=0.125, beta=0.1, use_beta=False, pruning_size=2 if variant == 'wide' else 50,
                                 nbest=nbest, max_step=20000, max_length=250)
         except Exception as e:      # noqa
             c.fail('run_raised', f'depccg.parsing.run raised {type(e).__name__}: {e} on the {variant} batch', {'variant': variant})
@@ -71,9 +74,9 @@ def special_batches(ctx, focus, cases, descr):
                 continue
             for ti, st in enumerate(rs):
                 where = f'{variant} batch sentence {si} tree {ti}'
-                glue.check_tree(c, focus if focus in ('c02', 'c12', 'c09', 'c16') else 'c02', st.tree, st.score, s, cats, cats, binary, unary, [list(cats)] * len(s.tokens), 0.125, where)
+                glue.check_tree(c, focus if focus in ('c02', 'c12', 'c09', 'c16') else 'c02', st.tree, st.score, s, cats, roots_, binary, unary, [list(cats)] * len(s.tokens), 0.125, where)
                 if focus != 'c12':
-                    glue.check_tree(c, 'c12', st.tree, st.score, s, cats, cats, binary, unary, [list(cats)] * len(s.tokens), 0.125, where)
+                    glue.check_tree(c, 'c12', st.tree, st.score, s, cats, roots_, binary, unary, [list(cats)] * len(s.tokens), 0.125, where)
                 if k < len(rec):
                     cases.append(glue.retrieve_case(rec[k], st.tree))
                     descr.append(where)
